@@ -1,8 +1,8 @@
 use std::collections::BTreeSet;
 
 use crate::{
-    AnyStoredVec, Bytes, ChangeCursor, ChangeData, ReadWriteBaseVec, Result, SIZE_OF_U64, VecIndex,
-    VecValue,
+    AnyStoredVec, AnyVec, Bytes, ChangeCursor, ChangeData, Error, ReadWriteBaseVec, Result,
+    SIZE_OF_U64, VecIndex, VecValue,
 };
 
 use super::{super::RawStrategy, ReadWriteRawVec, change::RawChangeData};
@@ -93,6 +93,19 @@ where
             prev_holes,
         } = Self::parse_raw_change_data(bytes)?;
 
+        // Validate before anything is changed: a failed rollback must leave the vector as
+        // it was. Modified slots have to lie inside the state being restored.
+        let restored_len = prev_stored_len
+            .checked_add(prev_pushed.len())
+            .ok_or(Error::Overflow)?;
+        if let Some(&(index, _)) = modifications.iter().find(|(i, _)| *i >= restored_len) {
+            return Err(Error::IndexTooHigh {
+                index,
+                len: restored_len,
+                name: self.name().to_string(),
+            });
+        }
+
         // Only needed when the rolled-back flush appended (prev_stored_len <
         // current): any holes/updated in the now-gone range must be dropped.
         if prev_stored_len < self.stored_len() {
@@ -108,7 +121,8 @@ where
         }
 
         for (idx, val) in modifications {
-            self.update_at(idx, val)?;
+            let applied = self.update_at(idx, val);
+            debug_assert!(applied.is_ok(), "indices were validated above");
         }
 
         if !prev_holes.is_empty() || !self.holes().is_empty() || !self.prev_holes().is_empty() {
